@@ -83,6 +83,9 @@ def detect_encoding(fname: PathOrIO, *, low_confidence: float = 0.9) -> str:
 
     result = chardet.detect(data)
     encoding = result["encoding"] or "utf-8"
+    if encoding.lower() == "ascii":
+        # the detector may look at a prefix only; utf-8 reads every ascii file
+        encoding = "utf-8"
     if result["confidence"] < low_confidence:
         warnings.warn(
             f"parse as `{encoding}` with low confidence "
